@@ -168,10 +168,12 @@ def mutate_dna(d, rng):
   """A (probably) invalid DNA next to a valid one."""
   nodes = list(dna_nodes(d))
   path, node = rng.choice(nodes)
-  op = rng.below(7)
+  op = rng.below(8)
 
   def fn(x):
     v, cs = x
+    if op == 7 and v is None and len(cs) >= 2:
+      return [['i', rng.randint(0, 5)], cs]                 # stray value on a node that hands its children on (F53)
     if op == 0 and v is not None and v[0] == 'i':
       return [['i', v[1] + rng.randint(1, 4)], cs]          # index (maybe) out of range / duplicate
     if op == 1 and cs:
@@ -615,6 +617,25 @@ def spec_of_pg(spec):
   raise Unrepresentable(type(spec).__name__)
 
 
+def has_stray(spec, dna):
+  """A *valid* DNA carries a value on a node whose children carry the decisions (F53)."""
+  pg = _setup_pg()['pg']
+  if isinstance(spec, pg.geno.Space):
+    n = len(spec.elements)
+    if n == 0:
+      return False
+    if n == 1:
+      return has_stray(spec.elements[0], dna)
+    return dna.value is not None or any(has_stray(e, c) for e, c in zip(spec.elements, dna.children))
+  if isinstance(spec, pg.geno.Choices):
+    if spec.num_choices == 1:
+      return has_stray(spec.candidates[dna.value], pg.DNA(None, [c.clone(deep=True) for c in dna.children]))
+    return dna.value is not None or any(
+        has_stray(spec.candidates[c.value], pg.DNA(None, [x.clone(deep=True) for x in c.children]))
+        for c in dna.children)
+  return False
+
+
 def err_name(e):
   return type(e).__name__
 
@@ -745,6 +766,7 @@ class C13(Prop):
         rec['valid'] = True
       except ValueError:
         rec['valid'] = False
+      rec['strict'] = rec['valid'] and not has_stray(spec, dna)
       try:
         v = t.decode(dna)
         check_unchanged('decode')
@@ -877,6 +899,8 @@ class C13(Prop):
         sig = 'encode-decode-not-identity'
         if W is not None:
           sig += ':where'
+        if not rec['strict'] and rec['enc'] and rec['enc'][0] == 'ok':
+          sig = 'stray-dna-value-lost'      # F53: validate / decode ignore the value, encode cannot reproduce it
         return {'signature': sig,
                 'what': 'encode(decode(%s)) = %s (%s)' % (d, json.dumps(rec['enc'])[:200], o.get('enc_error'))}
     if 'iter_error' in obs:
@@ -913,6 +937,8 @@ class C13(Prop):
     h.append('valid-dnas:%s' % ('0' if nv == 0 else '1-5' if nv <= 5 else '6+'))
     if any(not r['valid'] for r in m['dnas']):
       h.append('has-invalid-dna')
+    if any(r['valid'] and not r['strict'] for r in m['dnas']):
+      h.append('has-stray-value-dna(F53)')
     if any((not r['valid']) and r['dec'][0] == 'ok' for r in m['dnas']):
       h.append('invalid-dna-decoded')
     for o in out['obs']['per_dna']:
